@@ -1,6 +1,7 @@
 import UtilModel.Core.LTSHash
 import UtilModel.Core.LTSComplete
 import UtilModel.Broadcast.Lock
+import UtilModel.Broadcast.Quot
 /-!
 # Broadcast — end-to-end transfer
 
@@ -21,10 +22,12 @@ theorem C03_accepted (cap fuel : Nat) (h : List Broadcast.Obs)
 every enabled observable event is in `evsOf s o`, for the layered model the driver checks against and
 for the core model.
 
-There is no `reject_sound_broadcast` here: `rejectH_sound` needs `LawfulBEq LSt`, and the state
-equality the checker uses (`instBEqLSt`, equality of `St.norm`: channel ids up to closed/open) is a
-deliberate quotient, not the real equality. The REJECT direction for this model needs a version of
-`rejectH_sound` for an equivalence that is a bisimulation on well-formed states. -/
+`reject_sound_broadcast`: the state equality the checker uses (`instBEqLSt`, equality of `St.norm` —
+channel ids up to closed/open, a waiter parked on a closed channel = a waiter at the top of its loop —
+and of the lock) is a deliberate quotient, not the real equality, so `rejectH_sound` does not apply;
+`Broadcast/Quot.lean` proves that it is an equivalence compatible with the hash and a bisimulation on
+reachable states of `lmodel`, which is what `rejectH_sound_quot` needs. There is no such statement for
+the core model `Broadcast.model` (`Broadcast.core_not_quot`); the driver does not use it. -/
 
 theorem Broadcast.mem_internalCands (n t : Nat) (e : Broadcast.Ev) (ht : t < n)
     (he : e ∈ [Broadcast.Ev.holdCS t, .tryFail t, .waitCS t, .wakeCS t, .ctxRet t, .ctxTake t]) :
@@ -62,4 +65,17 @@ theorem complete_broadcast : Broadcast.lmodel.Complete := by
   · rename_i l' c' _ hc
     exact Broadcast.cands_complete s.core c' e hc ho
   · simp at hs
+
+theorem quotok_broadcast : Broadcast.lmodel.QuotOK := Broadcast.quotok
+
+/-- **A REJECT of the Broadcast correspondence is about the model**: when the driver's run fails at
+an observable without having hit the exploration bounds, no run of the layered model projects to
+the recorded history. -/
+theorem reject_sound_broadcast (cap fuel : Nat) (h : List Broadcast.Obs) (i : Nat)
+    (hfail : (Broadcast.lmodel.accRunH cap fuel [Broadcast.lmodel.init] h 0 false 1).failedAt = some i)
+    (htr : (Broadcast.lmodel.accRunH cap fuel [Broadcast.lmodel.init] h 0 false 1).truncated = false) :
+    ¬ ∃ es s, Broadcast.lmodel.run Broadcast.lmodel.init es = some s ∧
+      es.filterMap Broadcast.lmodel.obs = h :=
+  rejectH_sound_quot Broadcast.lmodel complete_broadcast quotok_broadcast cap fuel h i hfail htr
+
 end UtilModel
